@@ -214,13 +214,14 @@ TinySet == { RectCCW(-1,-1,1,1), Rev(RectCCW(0,0,2,2)), RBow, Diam }
 (* A leaf family = which single contours and which unordered pairs of contours (with       *)
 (* repetition) may be read under which rules.  Families are given by index sets so that    *)
 (* TLC enumerates them with nested quantifiers instead of building sets of records.        *)
-FamSingles(fam) == CASE fam = "small" -> IdxOf(SmallSet) [] fam = "tiny" -> IdxOf(TinySet)
+FamSingles(fam) == CASE fam = "small" -> IdxOf(SmallSet) [] fam \in {"tiny", "tinyq", "micro"} -> IdxOf(TinySet)
                      [] fam \in {"single", "fill", "sim"} -> 1..NCat [] OTHER -> {}
 FamPairs(fam) ==   CASE fam = "fill" -> 1..NCat                  \* every contour set of <= 2 contours
                      [] fam = "sim"  -> IdxOf(SmallSet \cup Specials)
                      [] fam = "tiny" -> IdxOf({RectCCW(-1,-1,1,1), Rev(RectCCW(0,0,2,2))})
                      [] OTHER -> {}
-FamRules(fam, npair) == IF fam = "tiny" THEN (IF npair = 1 THEN {"Positive"} ELSE {"EvenOdd"}) ELSE Rules
+FamRules(fam, npair) == IF fam = "tiny" THEN (IF npair = 1 THEN {"Positive"} ELSE {"EvenOdd"})
+                        ELSE IF fam \in {"tinyq", "micro"} THEN {"EvenOdd"} ELSE Rules
 (* which of the two contours of a pair comes first alternates *)
 PairIds(i, j) == IF (i + j) % 2 = 0 THEN <<i, j>> ELSE <<j, i>>
 
